@@ -524,6 +524,8 @@ def check_symbols_minute_major(repo, rep):
 
 
 def run(repo: Repo, rep, tier: str):
+    from vlib import memo
+    rep.guarded(memo.check, repo, rep, "C07-R13", [(CANDLES_STATE, "CandlesState")], "candle store")
     rep.exhaustive = True
     rep.assume("sessions start and warm-up lengths are aligned to every route timeframe (stated in the property)")
     rep.guarded(check_formula, repo, rep)
